@@ -381,10 +381,12 @@ func (e *Engine) step(p *partition, row map[string]any, ts, seq int64) []map[str
 			continue // 超期/超长：丢弃
 		}
 		succ := e.advance(r, row)
+		if hasAccept(r.states) && (len(succ) == 0 || !e.lazy) {
+			// 未界重复（A+/A*）收尾；贪婪模式下即使 run 仍可延伸也要记住这一可接受前缀：
+			// 延伸若最终失败（如 (A B)+ 读到 A 后缺 B），应回退到此前最长的已接受匹配。
+			completions = append(completions, r)
+		}
 		if len(succ) == 0 {
-			if hasAccept(r.states) {
-				completions = append(completions, r) // 未界重复（A+/A*）收尾
-			}
 			continue
 		}
 		for _, s := range succ {
